@@ -406,7 +406,15 @@ pub fn c11_eval(case: &FragCase, st: &mut RunStats) -> Vec<Violation> {
         return out;
     }
     let mut queue: Vec<QSample> = Vec::new();
-    let mut init: Option<(usize, Vec<u8>)> = None;
+    // "no matter when": the reference is what a fresh muxer of the same configuration returns at once
+    let fresh_init: Option<Vec<u8>> = {
+        let probe = FragCase { cfg: case.cfg.clone(), ops: vec![FragOp::Init] };
+        match exec::run_frag(&probe).ops.first() {
+            Some(FragRes::Init(b)) => Some(b.clone()),
+            _ => None,
+        }
+    };
+    let mut init: Option<(usize, Vec<u8>)> = fresh_init.map(|b| (usize::MAX, b));
     // per emitted segment: (tfdt, first dts, last dts, sum of durations before last, n)
     struct Seg {
         tfdt: u64,
@@ -428,7 +436,8 @@ pub fn c11_eval(case: &FragCase, st: &mut RunStats) -> Vec<Violation> {
                 None => init = Some((i, b.clone())),
                 Some((j, first)) => {
                     if first != b {
-                        out.push(v("C11", "init-segment-changed", "", format!("init segment requested at op {} differs from the one requested at op {} ({} vs {} bytes)", i, j, b.len(), first.len())));
+                        let whence = if *j == usize::MAX { "by a fresh muxer of the same configuration before any write".to_string() } else { format!("at op {}", j) };
+                        out.push(v("C11", "init-segment-changed", if *j == usize::MAX { "depends-on-history" } else { "between-requests" }, format!("init segment requested at op {} differs from the one returned {} ({} vs {} bytes)", i, whence, b.len(), first.len())));
                         return out;
                     }
                 }
